@@ -17,19 +17,21 @@ let cfg n world sel dims etas re im =
     dg_etas = List.map zs etas; dg_re = zs re; dg_im = zs im }
 
 let () =
-  (* dgsum KIND | N | world | sel | dims | re | im | eta0 | eta1 | ...  ->  locals = reduced serial denominator *)
+  (* dgsum KIND | N | world | sel | dims | re | im | eta0 | eta1 | ...  ->  locals = reduced serial denominator replication
+     (?guard unless dg_wf and dg_link_ok, the hypotheses of c17_reduced_eq_serial, hold) *)
   register "dgsum" (fun t -> match split_on "|" t with
     | [k] :: n :: world :: sel :: dims :: re :: im :: etas ->
         let c = cfg n world sel dims etas re im in
-        if not (dg_wf c) then "?guard" else
+        if not (dg_wf c && dg_link_ok c) then "?guard" else
         let k = kind_of k in
         String.concat " " (List.map show_z (dg_all k c)) ^ " = " ^ show_z (dg_reduced k c) ^ " "
-          ^ show_z (dg_serial k c) ^ " " ^ show_z (dg_denominator k c)
+          ^ show_z (dg_serial k c) ^ " " ^ show_z (dg_denominator k c) ^ " " ^ string_of_int (int_of_nat (dg_replication c))
     | _ -> "?args");
   (* dgext min|max | N | world | sel | dims | re | ax fix ax fix ...  ->  what every rank hands to reduce = reduced *)
   register "dgext" (fun t -> match split_on "|" t with
     | [[m]; n; world; sel; dims; re; pr] ->
         let c = cfg n world sel dims [] re [] in
+        if not (dg_link_ok c) then "?guard" else
         let mx = (m = "max") in
         let pr = pairs_of (ints pr) in
         String.concat " " (List.map show_oz (dg_all_ext mx c pr)) ^ " = " ^ show_oz (dg_reduced_ext mx c pr)
@@ -38,6 +40,7 @@ let () =
   register "dgcext" (fun t -> match split_on "|" t with
     | [[m]; n; world; sel; dims; re] ->
         let c = cfg n world sel dims [] re [] in
+        if not (dg_link_ok c) then "?guard" else
         let mx = (m = "max") in
         String.concat " " (List.map (fun wc -> show_oz (dg_local_ext mx c wc)) (dg_coords c.dg_world))
           ^ " = " ^ show_oz (dg_collector_ext mx c)
